@@ -59,14 +59,13 @@ def size_fails(l):
 def line_wf(l):
     """well-formedness established when the line was parsed (class invariants)"""
     return (implies(isa(l, 'FillDataLine'), l._count is None or value_of(l._count) >= 0)
-            and implies(isa(l, 'FillUntilDataLine'), l._address is not None)
             and implies(isa(l, 'PredefinedDataLine'), l._byte_length >= 0)
             and implies(isa(l, 'DataLine'), data_directive_ok(l._directive))
             and implies(isa(l, 'InstructionLine'), l._assembled_instruction._byte_size >= 0))
 
 
 SIZE = dict(props=['C02', 'C03', 'C04', 'C05', 'C14'], name=None,
-            requires=['line_wf(self)'],
+            requires=['line_wf(self)', 'implies(isa(self, "FillUntilDataLine"), self._address is not None)'],
             raises={'SystemExit': 'size_fails(self)'},
             ensures=['result == old(line_size(self))', 'line_size(self) == old(line_size(self))', 'result >= 0',
                      'line_wf(self)', 'not size_fails(self)'],
@@ -85,3 +84,71 @@ for key, base in BYTE_SIZE_IMPLS:
     kw = dict(SIZE)
     kw['name'] = 'abs:' + key.split(':')[1]
     contract(key, covers_overrides=base, **kw)
+
+
+# ---- address of a line ------------------------------------------------------------------------------------
+@spec
+def org_value(l):
+    """a bare .org is absolute; an origin given relative to a zone is offset from that zone's start"""
+    if l._parsed_memzone_name is None:
+        return xval(l._address_expr, l._label_scope)
+    return l._memzone._start + xval(l._address_expr, l._label_scope)
+
+
+@spec
+def gzone(l):
+    return mapping(l._memzone_manager._zones)['GLOBAL']
+
+
+@spec
+def org_fails(l):
+    return (xfails(l._address_expr, l._label_scope) or org_value(l) < gzone(l)._start or org_value(l) > gzone(l)._end)
+
+
+@spec
+def line_addr(l):
+    """the address of a line (None before placement); an origin line's address is its origin value"""
+    if isa(l, 'AddressOrgLine'):
+        return some(org_value(l))
+    return l._address
+
+
+ADDR = dict(props=['C02', 'C03', 'C04', 'C05', 'C16'], returns='int?',
+            requires=['implies(isa(self, "AddressOrgLine"), "GLOBAL" in self._memzone_manager._zones)'],
+            raises={'SystemExit': 'isa(self, "AddressOrgLine") and org_fails(self)'},
+            ensures=['result == line_addr(self)'], modifies=[])
+contract(LO + ':LineObject.address', name='abs:LineObject.address', covers_overrides=True, **ADDR)
+contract(LO + '.directive_line.address:AddressOrgLine.address', name='abs:AddressOrgLine.address', **ADDR)
+
+
+@spec
+def page_fails(l):
+    return typeis_union_ref(l._page_size) and xfails(union_ref(l._page_size), l._label_scope)
+
+
+@spec
+def place_wf(l):
+    """what placement needs of an .align line: its page size is a positive number or an expression of positive value"""
+    return implies(isa(l, 'PageAlignLine'),
+                   implies(not typeis_union_ref(l._page_size), union_is_int(l._page_size))
+                   and page_of(l, l._label_scope) >= 1)
+
+
+SSA = dict(props=['C02', 'C05'], params={'address': 'int'},
+           requires=['place_wf(self)', 'address >= 0'],
+           raises={'SystemExit': 'isa(self, "PageAlignLine") and page_fails(self)'},
+           ensures=[
+               # an origin line keeps its origin value
+               'implies(isa(self, "AddressOrgLine"), line_addr(self) == old(line_addr(self)))',
+               # an alignment moves to the smallest multiple of the page size that is not below the current address
+               'implies(isa(self, "PageAlignLine"), self._address is not None'
+               ' and value_of(self._address) % old(page_of(self, self._label_scope)) == 0'
+               ' and value_of(self._address) >= address'
+               ' and value_of(self._address) - address < old(page_of(self, self._label_scope)))',
+               # every other line is placed at the current address
+               'implies(not isa(self, "AddressOrgLine") and not isa(self, "PageAlignLine"),'
+               ' self._address is not None and value_of(self._address) == address)'],
+           modifies=['self._address', 'self._page_size'])
+contract(LO + ':LineObject.set_start_address', name='abs:LineObject.set_start_address', covers_overrides=True, **SSA)
+contract(LO + '.directive_line.address:AddressOrgLine.set_start_address', name='abs:AddressOrgLine.set_start_address', **SSA)
+contract(LO + '.directive_line.page_align:PageAlignLine.set_start_address', name='abs:PageAlignLine.set_start_address', **SSA)
